@@ -28,11 +28,11 @@ def core(keys=('a', 'b'), values=(1, BIG)):
 
 def slice_expiry():
     ops = core(values=(1,))
-    ops += [('set', 'a', 5, 1, None), ('set', 'a', BIG, 2, None),
-            ('set', 'b', 7, 1, None), ('set', 'a', 6, 0, None),
-            ('add', 'a', 2, None, None), ('add', 'a', 3, 1, None),
+    ops += [('set', 'a', 5, 1, 't'), ('set', 'a', BIG, 2, None),
+            ('set', 'b', 7, 1, 'u'), ('set', 'a', 6, 0, None),
+            ('add', 'a', 2, None, None), ('add', 'a', 3, 1, 't'),
             ('add', 'b', BIG, 2, None),
-            ('get', 'a', 2), ('touch', 'a', None), ('touch', 'a', 1),
+            ('get', 'a', 6), ('touch', 'a', None), ('touch', 'a', 1),
             ('touch', 'b', 2), ('incr', 'a', 1, 0), ('incr', 'a', 1, None),
             ('pop', 'a', 2), ('contains', 'a'), ('contains', 'b'),
             ('delitem', 'a'), ('expire',), ('cull',), ('len',), ('keys',),
